@@ -29,6 +29,52 @@ STARTS = chessgen.SEED_FENS + [
 ]
 
 
+def motif_uncastle(rng):
+    """positions in which the side that just moved has king and rook where castling would have put them, with the
+    squares that must be empty / unattacked for the un-castling filled or attacked at random"""
+    board = chessgen.random_placement(rng, dense=rng.random() < 0.4)
+    white = rng.random() < 0.5                     # the side that (maybe) just castled
+    base = 0 if white else 56
+    K, R = ("K", "R") if white else ("k", "r")
+    for i, p in enumerate(board):
+        if p == K or (base <= i < base + 8 and p not in ("K", "k")): board[i] = None
+    short = rng.random() < 0.5
+    ksq, rsq = (base + 6, base + 5) if short else (base + 2, base + 3)
+    for s in (ksq, rsq):
+        if board[s] in ("K", "k"): return None
+    board[ksq], board[rsq] = K, R
+    must_empty = [base + 4, base + 7] if short else [base + 0, base + 1, base + 4]
+    other = [base + i for i in range(8) if base + i not in (ksq, rsq) and base + i not in must_empty]
+    for s in must_empty + other:
+        if board[s] is None and rng.random() < (0.18 if s in must_empty else 0.25):
+            board[s] = rng.choice("QRBNqrbn") if s in must_empty else rng.choice("RBNrbn")
+    # enemy attackers aimed at the king's path (e1/f1 or e1/d1), sometimes
+    for _ in range(rng.choice([0, 0, 1, 1, 2])):
+        tgt = rng.choice([base + 4, rsq, ksq])
+        t = rng.choice("RBNQ")
+        tx, ty = tgt % 8, tgt // 8
+        if t == "N":
+            dx, dy = rng.choice([(1, 2), (2, 1), (-1, 2), (-2, 1), (1, -2), (2, -1), (-1, -2), (-2, -1)]); x, y = tx + dx, ty + dy
+        else:
+            fwd = 1 if white else -1
+            dirs = [(0, fwd)] if t == "R" else [(1, fwd), (-1, fwd)] if t == "B" else [(0, fwd), (1, fwd), (-1, fwd)]
+            dx, dy = rng.choice(dirs); k = rng.randrange(1, 7); x, y = tx + dx * k, ty + dy * k
+        if 0 <= x < 8 and 0 <= y < 8 and board[y * 8 + x] is None:
+            board[y * 8 + x] = t.lower() if white else t
+    for x in range(8):
+        for yy in (0, 7):
+            if board[yy * 8 + x] in ("P", "p"): board[yy * 8 + x] = None
+    # castling flags of the other side, consistent with its home squares
+    ob = 56 if white else 0
+    oK, oR = ("k", "r") if white else ("K", "R")
+    cs = ""
+    if board[ob + 4] == oK:
+        if board[ob + 7] == oR and rng.random() < 0.6: cs += "k" if white else "K"
+        if board[ob + 0] == oR and rng.random() < 0.6: cs += "q" if white else "Q"
+    cs = "".join(sorted(cs, key="KQkq".index)) or "-"
+    return chessgen.board_to_fen(board, not white, cs, "-", rng.randrange(0, 30), rng.randrange(1, 60))
+
+
 def par_lines(binary, lines, nproc=None, chunk=400):
     """run `lines` through `binary`, split over processes; returns (ok, outputs, stderr)"""
     n = max(1, min(nproc or min(vlib.NCPU, 12), len(lines) // chunk + 1))
@@ -173,6 +219,7 @@ def run(ctx):
     st = check_positions(ctx, vh, qs, (1, 0), "game-positions")
     # 3. synthetic positions (not necessarily reachable): promoted pieces, e.p. shapes, castling flags
     syn = [f for f in chessgen.synthetic(ctx.rng, 1500 if quick else 60000)]
+    syn += [f for f in (motif_uncastle(ctx.rng) for _ in range(1200 if quick else 40000)) if f]
     ok, o, err = par_lines(vh, [f"chess fen {f}" for f in syn])
     acc = []
     if ok:
